@@ -670,6 +670,53 @@ fn gen_w(r: &mut Rng, out: &mut Out, sends: u64) -> Vec<String> {
     ops
 }
 
+/// `W`, slots full at an epoch crossing: all `MAX_EXCHANGES` group exchanges stay open (never
+/// dropped) while reservations go on -- each further `initiate_group` consumes a value and fails
+/// with `NoSpaceExchanges` AFTER its store -- until the reservation that crosses the stored boundary
+/// happens with no free slot; then send, open and send again, restart within the epoch, send again.
+fn gen_w_full(r: &mut Rng, out: &mut Out) -> Vec<String> {
+    let mut ops: Vec<String> = Vec::new();
+    let slots = 5u64;
+    for _ in 0..slots {
+        ops.push("open 0".into());
+    }
+    // the first reservation after a start crosses the boundary; the next crossing is the 1001st
+    // (1000th across the wrap); go a little short of / beyond it
+    let target = 1000 + r.below(4);
+    let mut reserved = slots;
+    while reserved < target {
+        if r.chance(1, 60) {
+            // free one slot and take it again: the slots are full again at the next reservation
+            ops.push(format!("send {}", r.below(slots)));
+            ops.push("open 0".into());
+            reserved += 1;
+        } else {
+            ops.push("open 0".into());
+            reserved += 1;
+        }
+    }
+    out.stat("w_gen_full_at_crossing", 1);
+    let mut waiting = slots;
+    for _ in 0..r.range(1, 4) {
+        ops.push(format!("send {}", r.below(waiting)));
+        waiting -= 1;
+        if r.chance(2, 3) {
+            ops.push("open 0".into());
+            waiting += 1;
+        }
+    }
+    if r.chance(1, 2) {
+        ops.push("crash".into());
+    } else {
+        ops.push(format!("opencrash {} 0", if r.chance(1, 2) { "a" } else { "b" }));
+    }
+    for _ in 0..r.range(1, 5) {
+        ops.push("open 0".into());
+        ops.push("send 0".into());
+    }
+    ops
+}
+
 fn gen_e_d0(r: &mut Rng, out: &mut Out) -> Option<u64> {
     match r.below(100) {
         0..=24 => { out.stat("e_d0_none", 1); None }
@@ -912,7 +959,8 @@ pub fn gen(a: &Args) -> String {
             _ => cr.range(900, 1200),
         };
         out.stat("kind_W", 1);
-        let ops = gen_w(&mut cr, &mut out, sends);
+        // one in ten: the slots-full-at-an-epoch-crossing shape
+        let ops = if cr.chance(1, 10) { gen_w_full(&mut cr, &mut out) } else { gen_w(&mut cr, &mut out, sends) };
         run_case(&mut out, &Case { id: w_id, kind: format!("W {}", d0_str(d0)), ops });
         w_id += 1;
     }
